@@ -52,6 +52,7 @@ def main():
         seed = 1
     mod = importlib.import_module(a.prop)
     ctx = vlib.Ctx(a.prop, a.tier, seed)
+    ctx.allowed_axioms = mod.META.get("allowed_axioms", [])
     try:
         if a.replay:
             rc = mod.replay(ctx, a.replay)
